@@ -1191,7 +1191,7 @@ func lenAtLeast(c *engine.Ctx, conds []engine.Lit, x string, k int64) bool {
 func c12ConstIndex(c *engine.Ctx, d *c12Data, n *c12Null) {
 	o := c.Custom("C12.3c", "K-guard(constant index)", "x[k] with a constant k, where x is a parameter or a field of a parameter (a slice the function did not build), is dominated by a length test len(x) > k — in the function or at every call site (argument substituted)",
 		"TypeOpts and split path elements come from the model, the store and the request: an empty slice panics at [0]")
-	defer o.Done(6)
+	defer o.Done(3) // a floor for "the rule still finds its constructs", not the count of today (a refactoring may remove a constant index)
 	reported := map[string]bool{}
 	sites := map[string]bool{}
 	for _, p := range d.paths {
